@@ -43,6 +43,26 @@ WHAT = {
  "C19-2": "await_each: finally awaits the remaining awaitables - awaits nobody asked for after close/failure",
  "C20-1": "tee_peer cleanup rebinding `peers = [...]` - a closed child's buffer keeps growing, source never closed",
  "C20-2": "tee_peer: append methods of all buffers cached at first step - items appended to a closed child's buffer for ever",
+ "C01-3": "zip(strict=True): `anext(it, None) is not None` as exhaustion test - a surplus item None ends the zip silently",
+ "C01-4": "accumulate default `add`: `x += y; return x` - totals are mutated in place (lists alias, earlier results change)",
+ "C02-3": "sorted(key=..., reverse=True): sort ascending then list.reverse() - equal elements come out in reversed order",
+ "C02-4": "heapq.ReverseLT.__eq__ removed - tuple comparison never reaches the index tie-breaker in nsmallest",
+ "C04-3": "accumulate(initial=...): initial yielded before entering ScopedIter - close after the first item leaks the source",
+ "C04-4": "chain.__anext__: `except Exception` - a BaseException/cancellation leaves the not-yet-reached iterables open",
+ "C05-3": "zip_longest: exhausted sources stay in the list and are re-pulled on every later row (only visible on re-polls, A5)",
+ "C05-4": "dropwhile: single loop `if await predicate(item) and dropping` - predicate still called after it first failed",
+ "C06-3": "batched: `except Exception: yield partial batch; raise` - failure deferred behind an extra short batch",
+ "C06-4": "GroupBy.__anext__: scan loop moved under `except AttributeError` - an AttributeError of source/key is swallowed",
+ "C09-3": "tee_peer: item published to the buffers after leaving `async with lock` - reordering/loss when the release suspends",
+ "C09-4": "tee_peer: lock acquired inside the try whose finally releases it - a consumer cancelled while waiting releases a sibling's lock",
+ "C10-3": "CachedLRU: `full` flag not reset by cache_discard - eviction although there is room",
+ "C10-4": "MemoizedLRU: miss counted only when a result is stored - failing calls are not counted as misses",
+ "C12-3": "placeholder keeps its own produced value (`_done` fast path) - a retained placeholder serves a deleted value",
+ "C12-4": "_get_attribute stores awaitable results unwrapped - later awaits await the value instead of returning it",
+ "C14-3": "ExitStack.__aexit__: pending_exc not cleared on suppression - a suppressed replacement exception is re-raised",
+ "C14-4": "ExitStack.callback: sync callbacks registered through awaitify(lambda) - a truthy return value suppresses",
+ "C16-3": "_Grouper staleness judged by key (`target_key != self._target_key`) - an old handle revives when its key recurs",
+ "C16-4": "_GroupByState.target_key defaults to None / `is not None` test - a None key breaks the run scan",
 }
 rows = []
 for d in sorted(glob.glob(os.path.join(HERE, "..", "seeded", "*", ""))):
